@@ -231,6 +231,16 @@ _WORKER_BOOT = r"""
 import sys, json, os
 sys.path.insert(0, %(snap)r)
 sys.path.insert(1, %(verif)r)
+_cov = None
+if os.environ.get('VERIF_COVERAGE_DIR'):
+    # diagnostic only (tools/coverage.sh): which lines of the library the checks' executions reach
+    import coverage, atexit
+    _cov = coverage.Coverage(data_file=os.path.join(os.environ['VERIF_COVERAGE_DIR'], 'cov'), data_suffix=True, branch=True,
+                             include=[os.path.join(%(snap)r, 'dateparser', '*')], omit=[os.path.join(%(snap)r, 'dateparser', 'data', '*')])
+    _cov.start()
+    def _cov_stop():
+        _cov.stop(); _cov.save()
+    atexit.register(_cov_stop)
 import importlib
 mod = importlib.import_module(%(mod)r)
 fn = getattr(mod, %(fn)r)
